@@ -147,6 +147,8 @@ class App:
         self.closed = 0
         self.after_closed = []   # events delivered after the closed notification
         self.helper = None
+        self.dilated = None
+        self.sub_results = []
         self.close_calls = 0
         self.extra = []          # results of explicit get_* / derive_key steps
 
@@ -210,11 +212,18 @@ def verdict(result):
     return result
 
 
+PEER_HOSTS = ["10.2.0.1", "10.2.0.2", "10.2.0.3"]
+
+
 class Client:
     def __init__(self, world, ci, ccfg):
         self.ci = ci
         self.cfg = ccfg
-        self.clock = Clock()
+        if world.net is not None:
+            from .simnet import SimReactor
+            self.clock = SimReactor(world.net, PEER_HOSTS[ci])
+        else:
+            self.clock = Clock()
         self.app = App(world, ci, ccfg)
         self.svc = None
         self.conn = None
@@ -272,7 +281,7 @@ class MailboxWorld:
     explored={kinds}, coarse={client indexes whose up/down run eagerly},
     welcome={...}, reorder=int, dup=int, acks=bool, initial_fail=bool"""
 
-    KINDS = ("down", "up", "api", "raw", "turn", "connect", "stopfin", "reorder", "dup", "srverr", "drop", "connfail")
+    KINDS = ("nconn_ok", "nconn_fail", "ndeliver", "nclose", "nlose", "down", "up", "api", "raw", "turn", "connect", "stopfin", "reorder", "dup", "srverr", "drop", "connfail")
 
     def __init__(self, cfg, seed=0):
         self.cfg = cfg
@@ -291,6 +300,13 @@ class MailboxWorld:
         self.monitors = list(cfg.get("monitors", ()))
         self.final_monitors = list(cfg.get("final_monitors", ()))
         self._pending_services = []
+        self.net = None
+        if cfg.get("net"):
+            from .simnet import Net
+            from wormhole import ipaddrs
+            self.net = Net()
+            ipaddrs.find_addresses = lambda: [PEER_HOSTS[int(CTX.client[1:])] if (CTX.client or "").startswith("c") else "127.0.0.1"]
+        self.nlose_left = cfg.get("nlose", 0)
         CTX.world = self
         CTX.client = "srv"
         db = create_channel_db(":memory:")
@@ -383,10 +399,13 @@ class MailboxWorld:
             cn = c.conn
             if cn and cn.open and not cn.stopping and cn.up:
                 evs.append(("up", c.ci))
+        late = []
         for c in self.clients:
             for ti, t in enumerate(c.threads):
                 if c.pc[ti] < len(t) and self._step_enabled(c, t[c.pc[ti]]):
-                    evs.append(("api", c.ci, ti))
+                    # close() comes last in the menu: the default schedule lets the protocol run to quiescence first,
+                    # closing earlier is a deviation
+                    (late if t[c.pc[ti]][0] == "close" else evs).append(("api", c.ci, ti))
         for a in self.raw:
             if a.pc < len(a.script):
                 evs.append(("raw", a.ai))
@@ -399,6 +418,9 @@ class MailboxWorld:
         for c in self.clients:
             if c.conn and c.conn.open and c.conn.stopping:
                 evs.append(("stopfin", c.ci))
+        if self.net is not None:
+            evs.extend(self._net_events())
+        evs.extend(late)
         if self.reorder_left > 0:
             for c in self.clients:
                 cn = c.conn
@@ -422,6 +444,11 @@ class MailboxWorld:
                     t = json.loads(cn.up[0].decode("utf-8"))["type"]
                     if t in self.cfg.get("srverr_types", ("claim", "open")):
                         evs.append(("srverr", c.ci))
+        if self.net is not None and self.nlose_left > 0:
+            for link in self.net.links:
+                for side in (0, 1):
+                    if not link.ends[side].transport.closed and not link.broken:
+                        evs.append(("nlose", link.idx, side))
         if self.cfg.get("initial_fail"):
             for c in self.clients:
                 if c.svc.running and not c.ever_connected and c.conn is None and not getattr(c, "failed", False):
@@ -429,6 +456,28 @@ class MailboxWorld:
         extra = self.cfg.get("extra_events")
         if extra:
             evs.extend(extra(self))
+        return evs
+
+    def _net_events(self):
+        evs = []
+        if True:
+            from .simnet import can_close
+            for cc in self.net.attempts:
+                if cc.state == "connecting":
+                    if self.net.listener_for(cc.host, cc.port) is not None:
+                        evs.append(("nconn_ok", cc.idx))
+                    else:
+                        evs.append(("nconn_fail", cc.idx))
+            for link in self.net.links:
+                for side in (0, 1):
+                    end = link.ends[side]
+                    if not end.transport.closed and not end.transport.disconnecting and link.pending(side) > 0 \
+                            and not end.transport.reading_paused:
+                        evs.append(("ndeliver", link.idx, side))
+            for link in self.net.links:
+                for side in (0, 1):
+                    if can_close(link, side):
+                        evs.append(("nclose", link.idx, side))
         return evs
 
     def _step_enabled(self, c, step):
@@ -439,6 +488,8 @@ class MailboxWorld:
             return c.app.helper is not None
         if step[0] == "set_code_peer":
             return self._peer_code(c) is not None
+        if step[0] in ("sub_connect", "sub_listen"):
+            return c.app.dilated is not None
         if step[0] == "get_late":       # a get_*() issued only after the closed notification
             return c.app.closed > 0
         return True
@@ -464,7 +515,7 @@ class MailboxWorld:
     def _closure(self):
         n = 0
         while True:
-            evs = [e for e in self._all_enabled() if self._is_eager(e) and e[0] not in ("drop", "dup", "reorder", "connfail", "srverr")]
+            evs = [e for e in self._all_enabled() if self._is_eager(e) and e[0] not in ("drop", "dup", "reorder", "connfail", "srverr", "nlose")]
             if not evs:
                 break
             self._do(evs[0])
@@ -483,6 +534,9 @@ class MailboxWorld:
     def _do(self, ev):
         CTX.world = self
         kind = ev[0]
+        if kind in ("nconn_ok", "nconn_fail", "ndeliver", "nclose", "nlose"):
+            self._net_event(ev)
+            return
         if kind == "raw":
             CTX.client = "srv"
             self.raw[ev[1]].step()
@@ -541,6 +595,46 @@ class MailboxWorld:
             h = self.cfg.get("extra_apply")
             if not h or not h(self, ev):
                 raise ValueError("unknown event %r" % (ev,))
+
+    def _net_event(self, ev):
+        from . import simnet
+        from twisted.internet import error as terror
+        kind = ev[0]
+
+        def owner(link, side):
+            h = link.ends[side].owner
+            return "c%d" % PEER_HOSTS.index(h) if h in PEER_HOSTS else "x"
+
+        def guard(tag, f, *a):
+            try:
+                return f(*a)
+            except Exception as e:
+                self.escaped.append((tag, -1, type(e).__name__, str(e)[:160], _site(e)))
+                return e
+        if kind == "nconn_ok":
+            cc = self.net.attempts[ev[1]]
+            CTX.client = "c%d" % PEER_HOSTS.index(cc.reactor.name)
+            guard("net.connect", simnet.establish, self.net, cc)
+        elif kind == "nconn_fail":
+            cc = self.net.attempts[ev[1]]
+            CTX.client = "c%d" % PEER_HOSTS.index(cc.reactor.name)
+            guard("net.connect", simnet.refuse, self.net, cc)
+        elif kind == "ndeliver":
+            link = self.net.links[ev[1]]
+            CTX.client = owner(link, ev[2])
+            r = guard("net.dataReceived", simnet.deliver, link, ev[2], link.pending(ev[2]))
+            if isinstance(r, Exception):
+                simnet.close_end(link, ev[2], terror.ConnectionLost())
+        elif kind == "nclose":
+            link = self.net.links[ev[1]]
+            CTX.client = owner(link, ev[2])
+            guard("net.connectionLost", simnet.close_end, link, ev[2])
+        elif kind == "nlose":
+            self.nlose_left -= 1
+            link = self.net.links[ev[1]]
+            link.broken = True
+            CTX.client = owner(link, ev[2])
+            guard("net.connectionLost", simnet.close_end, link, ev[2], terror.ConnectionLost())
 
     def _connect(self, c):
         c.gen += 1
@@ -652,6 +746,24 @@ class MailboxWorld:
                     app.close_calls += 1
                     d.addCallbacks(lambda v: app.ev(name, verdict(v)),
                                    lambda f: app.ev(name, verdict(f)))
+            elif op == "dilate":
+                app.dilated = w.dilate(**(step[1] if len(step) > 1 else {}))
+            elif op == "sub_connect":
+                from twisted.internet.protocol import Factory, Protocol
+                idx = len(app.sub_results)
+                app.sub_results.append(None)
+                f = Factory.forProtocol(Protocol)
+                d = app.dilated.connector_for(step[1]).connect(f)
+                d.addCallbacks(lambda p, idx=idx: app.sub_results.__setitem__(idx, "ok"),
+                               lambda fl, idx=idx: app.sub_results.__setitem__(idx, type(fl.value).__name__))
+            elif op == "sub_listen":
+                from twisted.internet.protocol import Factory, Protocol
+                idx = len(app.sub_results)
+                app.sub_results.append(None)
+                f = Factory.forProtocol(Protocol)
+                d = app.dilated.listener_for(step[1]).listen(f)
+                d.addCallbacks(lambda p, idx=idx: app.sub_results.__setitem__(idx, "listening"),
+                               lambda fl, idx=idx: app.sub_results.__setitem__(idx, type(fl.value).__name__))
             elif op == "derive":
                 app.extra.append(("derive", step[1], step[2], w.derive_key(step[1], step[2])))
             elif op in ("get", "get_late"):
@@ -706,7 +818,15 @@ class MailboxWorld:
         return out
 
     def image(self):
-        im = canon.Imager(opaque_types=(FakeWS, Conn, MailboxWorld, Clock, FakeClientService, rz.WSFactory))
+        opaque = [FakeWS, Conn, MailboxWorld, Clock, FakeClientService, rz.WSFactory]
+        deny = canon.DENY_ATTRS
+        if self.net is not None:
+            from .simnet import Net, SimReactor
+            import noise.connection as _nc
+            from twisted.internet.task import Cooperator
+            opaque += [Net, SimReactor, _nc.NoiseConnection, Cooperator]
+            deny = deny | {"_status", "_latest_status", "_description", "factory", "_coopTask"}
+        im = canon.Imager(opaque_types=tuple(opaque), deny=deny)
         parts = []
         for c in self.clients:
             cn = c.conn
@@ -726,7 +846,15 @@ class MailboxWorld:
                           tuple(json.dumps(m, sort_keys=True) for m in c.delivered_msgs()) if self.dup_left else (),
                           im.img(c.boss), im.img(c.app), im.img(c.ghost)))
         srv = self.server_dump()
-        return (tuple(parts), tuple((a.pc, a.mailbox, a.errors) for a in self.raw), im.img(srv), self.reorder_left, self.dup_left, self.srverr_left,
+        netimg = None
+        if self.net is not None:
+            links = []
+            for link in self.net.links:
+                links.append((tuple(b"".join(q) for q in link.queues), link.broken,
+                              tuple((e.transport.closed, e.transport.disconnecting, e.owner) for e in link.ends)))
+            netimg = (tuple(links), tuple((a.reactor.name, a.host, a.port, a.state) for a in self.net.attempts),
+                      tuple(sorted((h, p, port.listening) for (h, p), port in self.net.listeners.items())), self.nlose_left)
+        return (netimg, tuple(parts), tuple((a.pc, a.mailbox, a.errors) for a in self.raw), im.img(srv), self.reorder_left, self.dup_left, self.srverr_left,
                 tuple(self.errors), tuple(self.escaped),
                 im.img(self.cfg.get("extra_state")(self)) if self.cfg.get("extra_state") else None)
 
